@@ -238,6 +238,59 @@ def run(ctx):
             if file not in ("/t/main.ts", "<none>"):
                 ctx.prop_fail("file: frame names the wrong file %r" % file, case); ok = False; break
         distinct.add(g)
+    # ---------- PROP: traces that cross a module boundary: a frame never names a file that does not contain its function
+    xcases = []
+    for i in range(60 if ctx.tier == "quick" else 800):
+        nlib, nmain = rng.randint(1, 3), rng.randint(1, 4)
+        pad = lambda: "\n" * rng.randint(0, 3) + "// " + "x" * rng.randint(0, 30) + "\n"
+
+        def mkfn(name, callee, style):
+            call = "%s(x)" % callee if callee else "x.missing.field"
+            if style == "arrow_expr":
+                return "export const %s = (x: any) => %s;\n" % (name, call)
+            if style == "arrow_block":
+                return "export const %s = (x: any) => { return %s; };\n" % (name, call)
+            if style == "ctor":
+                return "export class K_%s { v: any; constructor(x: any) { this.v = %s; } }\nexport function %s(x: any) { return new K_%s(x).v; }\n" % (name, call, name, name)
+            if style == "method":
+                return "export const O_%s = { run(x: any) { return %s; } };\nexport function %s(x: any) { return O_%s.run(x); }\n" % (name, call, name, name)
+            return "export function %s(x: any) {\n  return %s;\n}\n" % (name, call)
+        styles = ["fn", "arrow_expr", "arrow_block", "ctor", "method"]
+        lib_names = ["lib%d_%d" % (i, k) for k in range(nlib)]
+        main_names = ["main%d_%d" % (i, k) for k in range(nmain)]
+        lib_src, callee = "", None
+        for nm in lib_names:
+            lib_src += pad() + mkfn(nm, callee, rng.choice(styles)); callee = nm
+        main_src = "import { %s } from './lib';\n" % lib_names[-1]
+        for nm in main_names:
+            main_src += pad() + mkfn(nm, callee, rng.choice(styles)).replace("export ", ""); callee = nm
+        main_src += pad() + "%s(null);\n" % callee
+        xcases.append((main_src, lib_src, lib_names, main_names))
+    xgot = common.harness(["pos"], ["X " + json.dumps({"main": m, "mods": {"/t/lib": l, "/t/lib.ts": l}}) for m, l, _, _ in xcases])
+    hist["cross_module_frames"] = 0
+    for (m, l, lib_names, main_names), g in zip(xcases, xgot):
+        ctx.cov["evaluations"] += 1
+        case = {"main": m[:1500], "lib": l[:1500], "impl": g[:600]}
+        parts = g.split("|")
+        if len(parts) != 3 or parts[0] != "TypeError":
+            ctx.prop_fail("runtime: the planted fault behind a cross-module call chain was not reported as TypeError with a trace", case); continue
+        xsrcs = {"/t/main.ts": m, "/t/lib": l, "/t/lib.ts": l}
+        for f in [x for x in parts[2].split(";") if x]:
+            name, loc = f.split("@", 1)
+            file, ln, col = loc.rsplit(":", 2)
+            hist["cross_module_frames"] += 1
+            if file in ("<none>", "<eval>"):
+                continue            # no file claimed
+            if file not in xsrcs:
+                ctx.prop_fail("file: frame %s names an unknown file %r" % (name, file), case); break
+            text = xsrcs[file].split("\n")
+            base = name.split(".")[-1]
+            owner = "/t/main.ts" if (base.startswith("main") or base == "<anonymous>") else ("/t/lib" if base.startswith("lib") else None)
+            if owner and not file.startswith(owner.replace(".ts", "")) and not (owner == "/t/lib" and file.startswith("/t/lib")):
+                ctx.prop_fail("file: frame %s is reported in %s, which does not contain it" % (name, file), case); break
+            if int(ln) < 1 or int(ln) > len(text):
+                ctx.prop_fail("file: frame %s reports line %s of %s, which has %d lines" % (name, ln, file, len(text)), case); break
+        distinct.add(g[:200])
     # ---------- CORR 2: source-map lookups of real chunks vs M-Pos.lookup
     msrc = [c[1] for c in cases if c[0] == "rt"][: (250 if ctx.tier == "quick" else 4000)]
     mgot = common.harness(["pos"], ["M " + enc(s) for s in msrc])
